@@ -54,13 +54,16 @@ fn analysed_tree_carries_an_error(src: &str) -> Option<String>
 				"ArrayLiteral", "Structural", "Deref", "LengthOfArray", "SizeOf", "Comparison", "Member",
 				"Parenthesized", "MethodCall", "If", "Block",
 			];
-			let node = NODES
-				.iter()
-				.filter_map(|n| dump[..at].rfind(&format!("{} {{", n)).map(|i| (i, *n)))
-				.max()
-				.map(|(_, n)| n)
-				.unwrap_or("?");
-			return Some(format!("{} under {}", variant, node));
+			let nearest = |upto: usize| {
+				NODES
+					.iter()
+					.filter_map(|n| dump[..upto].rfind(&format!("{} {{", n)).map(|i| (i, *n)))
+					.max()
+			};
+			let (at1, node) = nearest(at).unwrap_or((0, "?"));
+			// ... and the node opened before that one (usually its parent)
+			let outer = nearest(at1).map(|(_, n)| n).unwrap_or("?");
+			return Some(format!("{} under {} after {}", variant, node, outer));
 		}
 	}
 	None
